@@ -14,6 +14,7 @@ from ..gen import exprs as X
 
 PROPERTY = "C01"
 LEVEL = "exploration"
+USES_REFERENCE_MODELS = True
 RULE = ("case = one expression tree in one statement context (assign, IF with and without ELSE, PRINT item, "
         "FOR start/limit/step, subscript read/write, ON selector), evaluated under up to 8 valuations of the free "
         "variables; bounded-exhaustive over operator shapes (quick: <=2 operators, thorough: <=3 plus restricted 4), "
